@@ -35,27 +35,33 @@ def gaussian_elimination(m):
     elimination"""
     # Shape of the matrix
     M, N = shape(m)
+    # r is the row that receives the next pivot; it only advances when a
+    # pivot was found, so a column without pivot does not waste a row
+    r = 0
     for j in range(N - 1):
-        # We ignore everything above the jth row and everything left of
+        if r >= M:
+            break
+        # We ignore everything above the rth row and everything left of
         # the jth column (we assume they are 0 already)
-        pivot = find_pivot_row([row[j:] for row in m[j:]])
+        pivot = find_pivot_row([row[j:] for row in m[r:]])
         if pivot is None:
             continue
-        # find_pivot_row returns the index relative to j, so we need to
+        # find_pivot_row returns the index relative to r, so we need to
         # calculate the absolute index
-        pivot += j
+        pivot += r
         # Swap the rows
-        m[j], m[pivot] = m[pivot], m[j]
-        # Note that the pivot row is now m[j]!
+        m[r], m[pivot] = m[pivot], m[r]
+        # Note that the pivot row is now m[r]!
         # Eliminate everything else
-        for i in range(j + 1, M):
-            factor = m[i][j] / m[j][j] * -1
+        for i in range(r + 1, M):
+            factor = m[i][j] / m[r][j] * -1
             # Multiply the pivot row before adding them
-            multiplied_row = [factor * x for x in m[j]]
+            multiplied_row = [factor * x for x in m[r]]
             # Looks ugly, but we don't need numpy for it
             # Replace the ith row with the sum of the ith row and the
             # pivot row
             m[i] = [x + y for x, y in zip(m[i], multiplied_row)]
+        r += 1
     # m shold now be in row echelon form
     return m
 
@@ -121,11 +127,13 @@ class Solution(object):
                 # We can find a variable here
                 var = index(lambda i: not null(i), row[:-1])
                 vals[var] = row[-1] / row[var]
-        # Fill in the rest with given values
+        # Fill in the rest with given values: only variables that are not
+        # determined by a pivot are free
+        pivots = set(first_nonzero(row) for row in self._s if not nullrow(row))
         for i in reversed(range(len(vals))):
             if not v:
                 break
-            if vals[i] is None:
+            if vals[i] is None and i not in pivots:
                 vals[i] = v.pop()
 
         for i in reversed(range(len(self._s))):
